@@ -40,7 +40,8 @@ class DBFSURI:
                 raise NotImplementedError(
                     f"Cannot join path for {self}: {type(seg)}: {seg}"
                 )
-            if s.startswith("."):
+            if s == "." or s.startswith("./"):
+                # Only the current-directory prefix is dropped, not the first character of a name like '.hidden'
                 s = s[1:]
             if s.startswith("/"):
                 s = s[1:]
